@@ -61,6 +61,7 @@ def check(ctx):
     # mechanisms this property rests on (see shared.py): a change there is reported here as well
     from . import shared as _sh
 
+    _sh.path_tokenisers(ctx)
     _sh.gaf_reader(ctx)
     _sh.tag_parser(ctx)
     _sh.graph_loader(ctx)
@@ -137,6 +138,14 @@ def r02_1(ctx, m):
                 break
         kind = "converted stream" if is_gen else ("pass-through" if is_raw else "selected records")
         ctx.check(bad is None, "R02.1", run.where(loop), f"view ({kind}): every iteration prints exactly one record", key_of(run, f"one-print:{norm(it)}:{bad[1] if bad else ''}"), paths=len(paths), **({"path": bad[0].show(), "why": bad[1]} if bad else {}))
+    # line discipline of the output handle: a write that does not end its line glues the next record to it
+    for c in walk_own(run.node):
+        if isinstance(c, ast.Call) and isinstance(c.func, ast.Attribute) and c.func.attr == "write" and len(c.args) == 1:
+            a = c.args[0]
+            if isinstance(a, ast.Call) and isinstance(a.func, ast.Attribute) and a.func.attr == "join" and const_value(a.func.value, None) == "\n":
+                later = [x for x in walk_own(run.node) if isinstance(x, ast.Call) and x is not c and (tmpl.is_write_call(x) or (isinstance(x.func, ast.Attribute) and x.func.attr == "write"))]
+                if later or any(isinstance(l, (ast.For, ast.While)) and any(x is c for x in ast.walk(l)) for l in walk_own(run.node)):
+                    ctx.violated("R02.1", run.where(c), f"`{norm(c)[:70]}` writes a block of records without a line end after the last one: the first record of whatever is written next continues that line (two records become one)", key_of(run, f"block-without-newline:{norm(c)[:50]}"))
     ctx.require_count("R02.1", n_loops, 6, run.where(), "record-printing loops of view.run")
 
 
